@@ -1244,6 +1244,9 @@ def workflow_cases(su, full):
         add("mesh", cmd, base + ["--mesh"] + M)
         add("mesh-eigvecs-gc", cmd, base + ["--mesh"] + M + ["--eigvecs", "--gc"])
         add("band", cmd, base + ["--band", band, "--band-points", "11", "--band-labels", "A", "B", "C", "D", "E"])
+        # core list (every set-up, so also the one with a non-identity primitive matrix): the constant-interval
+        # path measures segment lengths with the PRIMITIVE reciprocal lattice (seed c18-8)
+        add("band-const", cmd, base + ["--band", band, "--band-points", "9", "--band-const-interval"])
         add("qpoints-writedm", cmd, base + ["--qpoints", "0 0 0 0.1 0.2 0.3 1/2 0 0", "--writedm"])
         add("tprop", cmd, base + ["--mesh"] + M + ["-t", "--tmax", "300", "--tstep", "100"])
         add("dos", cmd, base + ["--mesh"] + M + ["--dos", "--nowritemesh"])
